@@ -648,7 +648,6 @@ Definition okS_pt (m : model) (pos : list nat) (md : mode) (p : pt) : bool :=
 Definition okI (c : fcase) : bool := let '(mi, ms, g, pos, md, pts) := c in forallb (okI_pt mi pos md) pts.
 Definition okS (c : fcase) : bool := let '(mi, ms, g, pos, md, pts) := c in forallb (okS_pt ms pos md) pts.
 Definition g1 (c : fcase) : bool := let '(mi, ms, g, pos, md, pts) := c in g.
-Definition tab (l : list (list Qc)) (p u : nat) : Qc := nth u (nth p l []) 0.
 Definition vpt := (Qc * list Qc * list (list Qc) * list (list Qc) * list (list Qc))%type.   (* t, y, parameter table, history polynomials, expected rows per unit *)
 Definition vcase := (model * list nat * nat * list nat * mode * list vpt)%type.               (* model, starts, units, ids of the delay parameters, mode, points *)
 Definition vokI (c : vcase) : bool := let '(m, st, n, dps, md, pts) := c in
